@@ -633,8 +633,9 @@ func fillJsonMap(json2ptr *map[string]*HashFieldDet, fx *[]Sexp, fl *[]reflect.S
 		epath[len(embedPath)] = EmbedPath{ChildName: fld.Name, ChildFieldNum: i}
 		det.EmbedPath = epath
 
-		if fld.Anonymous {
+		if fld.Anonymous && fld.Type.Kind() == reflect.Struct {
 			// track how to get at embedded struct fields
+			// (an embedded pointer or other non-struct is a field like any other)
 			fillJsonMap(json2ptr, fx, fl, det.EmbedPath, fld.Type, detOrder)
 		}
 	}
